@@ -169,13 +169,19 @@ pub fn history(rng: &mut Rng, c: &Corpus, deep: bool) -> Circuit {
                 16 => {
                     if rng.chance(1, 4) {
                         // long scalars: lengths around the limb and field sizes, odd lengths, a zero limb in the middle
-                        let mut b = rng.bytes(32);
+                        let mut b = rng.bytes(66);
                         match rng.below(4) {
                             0 => b[8..16].iter_mut().for_each(|x| *x = 0),
                             1 => b.iter_mut().for_each(|x| *x = 0xff),
                             _ => {}
                         }
-                        let n = *rng.pick(&[63u16, 64, 65, 127, 128, 129, 250, 251, 252, 253, 255, 256]);
+                        // wide scalars too (64-byte "wide reduction" inputs, to_bits_le of two field elements)
+                        let n = *rng.pick(&[63u16, 64, 65, 127, 128, 129, 250, 251, 252, 253, 255, 256, 257, 264, 506, 512, 513]);
+                        if n > 256 && rng.chance(1, 2) {
+                            // exactly one set bit above 255
+                            b.iter_mut().skip(32).for_each(|x| *x = 0);
+                            b[(n as usize - 1) / 8] |= 1 << ((n as usize - 1) % 8);
+                        }
                         R1Op::ScalarMulBits(ix(rng), hex(&b), n, rng.below(4) as u8)
                     } else {
                         R1Op::ScalarMul(ix(rng), rng.below(40) as u16, mode(rng))
@@ -243,6 +249,19 @@ pub fn history(rng: &mut Rng, c: &Corpus, deep: bool) -> Circuit {
         // last = -(-(kB)) = kB ; previous-but-two = (-k)B ; sum = identity, possibly as (0,-1)
         ops.push(R1Op::AddConst(LAST, ESrc::MulNegGen(k)));
         ops.push(R1Op::IsZero(LAST));
+    }
+    // fixed-base history: the same constant base multiplied by a short scalar first and a longer one afterwards
+    // (anything precomputed per base and sized by an earlier call shows only then)
+    if rng.chance(1, 12) {
+        ops.push(R1Op::ConstantVar { src: if rng.chance(1, 2) { ESrc::Generator } else { esrc(rng, c) } });
+        let short = *rng.pick(&[1u16, 2, 5, 16, 64]);
+        ops.push(R1Op::ScalarMulBits(LAST, hex(&rng.bytes(66)), short, rng.below(4) as u8));
+        // the product is the newest entry now; the base is the one before it
+        let mut b = rng.bytes(66);
+        let long = *rng.pick(&[65u16, 128, 251, 253, 256, 257, 512]);
+        b[(long as usize - 1) / 8] |= 1 << ((long as usize - 1) % 8);
+        ops.push(R1Op::ScalarMulBits(LAST - 1, hex(&b), long, rng.below(4) as u8));
+        ops.push(R1Op::Compress(LAST));
     }
     let nd = rng.range(0, 2) as usize;
     let digest_steps = (0..nd).map(|_| rng.usize_below(ops.len())).collect();
@@ -396,6 +415,19 @@ pub fn adversarial(rng: &mut Rng, c: &Corpus) -> Circuit {
                     1 => R1Op::IsNegative(ix(rng)),
                     _ => R1Op::IsNonnegative(ix(rng)),
                 });
+            }
+            _ if rng.chance(1, 3) => {
+                // first use of two encoding-state variables is a selection (or an equality): the operand that is
+                // not selected must be validated all the same
+                let s1 = encoding_value(rng, c, (1, 2));
+                let s2 = encoding_value(rng, c, (1, 2));
+                ops.push(R1Op::AllocFq { mode: m(rng), s: s1 });
+                ops.push(R1Op::AllocFq { mode: m(rng), s: s2 });
+                ops.push(R1Op::AllocBool { mode: if rng.chance(1, 4) { Mode::Constant } else { Mode::Witness }, v: rng.chance(1, 2) });
+                ops.push(R1Op::Select(LAST, LAST - 1, LAST));
+                if rng.chance(1, 2) {
+                    ops.push(R1Op::Compress(LAST));
+                }
             }
             _ if rng.chance(1, 2) => {
                 ops.push(R1Op::AllocUnchecked { offer: offer(rng, c) });
